@@ -55,6 +55,27 @@ class FV:
         return f'FV({zs(self.m)}, {zs(self.v)})'
 
 
+class FP:
+    """f64 in bit-precise IEEE-754 binary64 semantics (z3 floating-point theory, round-to-nearest-even)."""
+    __slots__ = ('t',)
+
+    def __init__(self, t):
+        self.t = t if z3.is_expr(t) else z3.FPVal(float(t), z3.Float64())
+
+    def __repr__(self):
+        return f'FP({zs(self.t)})'
+
+
+RNE = z3.RNE()
+F64 = z3.Float64()
+
+
+def fp_total_key(x):
+    """Key of f64::total_cmp: IEEE bits as signed integer with the low 63 bits flipped for negative values."""
+    b = z3.fpToIEEEBV(x)
+    return z3.If(b < 0, b ^ z3.BitVecVal(0x7fffffffffffffff, 64), b)
+
+
 class IV:
     __slots__ = ('t', 'ty')
 
@@ -342,8 +363,22 @@ INT_RANGES = {
 }
 
 
-def parse_const(text, st=None):
+def parse_const(text, st=None, ieee=False):
     t = text.strip()
+    if ieee:
+        m = re.match(r'^(-?\d+(?:\.\d+)?(?:[eE][+-]?\d+)?)f64$', t)
+        if m:
+            return FP(z3.FPVal(m.group(1), F64))
+        if 'f64' in t and t.endswith('::MAX'):
+            return FP(z3.FPVal(1.7976931348623157e308, F64))
+        if 'f64' in t and t.endswith('::MIN_POSITIVE'):
+            return FP(z3.FPVal(2.2250738585072014e-308, F64))
+        if 'f64' in t and t.endswith('::EPSILON'):
+            return FP(z3.FPVal(2.220446049250313e-16, F64))
+        if 'f64' in t and t.endswith('::INFINITY'):
+            return FP(z3.fpPlusInfinity(F64))
+        if 'f64' in t and t.endswith('::NAN'):
+            return FP(z3.fpNaN(F64))
     if t in ('true', 'false'):
         return BV(t == 'true')
     if t == '()':
@@ -492,7 +527,25 @@ class Engine:
     # ---- operands / rvalues
     def eval_operand(self, st, depth, op):
         if op.kind == 'const':
-            return parse_const(op.const, st)
+            mp = re.search(r'::promoted\[(\d+)\]$', op.const.strip())
+            if mp:
+                key = f'{st.stack[depth].fn.name}::promoted[{mp.group(1)}]'
+                pf = self.prog.promoted.get(key)
+                if pf is None:
+                    raise Inconclusive(f'promoted constant {key} not found')
+                return self.exec_fn(st, pf, [])
+            v = parse_const(op.const, st, getattr(self.env, 'ieee', False))
+            if isinstance(v, Opaque) and re.match(r'^[\w:<>{}#, ]+$', v.name) and '::' in v.name:
+                # a named constant item: `const path::NAME` -> its body is in the dump under the trimmed name
+                from models import strip_generics
+                full = strip_generics(v.name)
+                cands = [f for n, f in self.prog.promoted.items() if full == n or full.endswith('::' + n)]
+                if len(cands) == 1:
+                    return self.exec_fn(st, cands[0], [])
+                lits = [(n, vals) for n, vals in self.prog.literal_consts.items() if full == n or full.endswith('::' + n)]
+                if len(lits) == 1 and len(set(lits[0][1])) == 1:
+                    return parse_const(lits[0][1][0], st, getattr(self.env, 'ieee', False))
+            return v
         v = self.read_place(st, depth, op.place)
         return copy_value(v)
 
@@ -516,14 +569,33 @@ class Engine:
                     return BV(zs(z3.Not(a.t)))
                 raise Inconclusive('bitwise Not on integers')
             if rv.extra == 'Neg':
+                if isinstance(a, FP):
+                    return FP(z3.fpNeg(a.t))
                 if isinstance(a, FV):
                     return f_neg(st, a)
                 if isinstance(a, IV):
                     return IV(zs(-a.t), a.ty)
+            if rv.extra == 'PtrMetadata':
+                x = a
+                while isinstance(x, RefV):
+                    x = x.load()
+                if isinstance(x, VecV):
+                    return IV(len(x.items))
+                if isinstance(x, Agg) and x.kind == 'array':
+                    return IV(len(x.fields))
             raise Inconclusive(f'unary {rv.extra}')
         if k == 'cast':
             a = self.eval_operand(st, depth, rv.args[0])
             ty, kind = rv.extra
+            if kind == 'IntToFloat' and isinstance(a, IV) and getattr(self.env, 'ieee', False):
+                return FP(z3.fpToFP(RNE, z3.ToReal(a.t), F64))
+            if kind == 'FloatToInt' and isinstance(a, FP):
+                # `as usize`/`as u64`: saturating, NaN -> 0; encoded for values in [0, 2^53] only (side-condition)
+                lo, hi = INT_RANGES.get(ty.strip(), (None, None))
+                st.require(z3.And(z3.Not(z3.fpIsNaN(a.t)), z3.fpGEQ(a.t, z3.FPVal(0.0, F64)), z3.fpLEQ(a.t, z3.FPVal(float(2 ** 53), F64))),
+                           'float -> int conversion within [0, 2^53]')
+                r = z3.ToInt(z3.fpToReal(z3.fpRoundToIntegral(z3.RTZ(), a.t)))
+                return IV(r, ty.strip())
             if kind == 'IntToFloat' and isinstance(a, IV):
                 st.require(z3.And(a.t <= LIM, a.t >= -LIM), 'int -> f64 conversion exact')
                 return FV(False, a.t)
@@ -616,6 +688,21 @@ class Engine:
         return Agg('struct', vals, clean)
 
     def binop(self, st, op, a, b):
+        if isinstance(a, FP) and isinstance(b, FP):
+            x, y = a.t, b.t
+            if op == 'Add':
+                return FP(z3.fpAdd(RNE, x, y))
+            if op == 'Sub':
+                return FP(z3.fpSub(RNE, x, y))
+            if op == 'Mul':
+                return FP(z3.fpMul(RNE, x, y))
+            if op == 'Div':
+                return FP(z3.fpDiv(RNE, x, y))
+            t = {'Lt': z3.fpLT(x, y), 'Le': z3.fpLEQ(x, y), 'Gt': z3.fpGT(x, y), 'Ge': z3.fpGEQ(x, y), 'Eq': z3.fpEQ(x, y),
+                 'Ne': z3.Not(z3.fpEQ(x, y))}.get(op)
+            if t is None:
+                raise Inconclusive(f'f64 operation {op}')
+            return BV(zs(t))
         if isinstance(a, FV) and isinstance(b, FV):
             if op == 'Add':
                 return f_add(st, a, b)
